@@ -1093,11 +1093,14 @@ impl Persistable for Bytes {
     }
 }
 
-pub(crate) fn to_bytes<T>(table: &T) -> Option<Vec<u8>>
+pub(crate) fn to_bytes<T>(table: &T) -> Result<Vec<u8>, Error>
 where
     T: FontWrite + Validate,
 {
-    write_fonts::dump_table(table).ok()
+    write_fonts::dump_table(table).map_err(|e| Error::DumpTableError {
+        e,
+        context: std::any::type_name::<T>().to_string(),
+    })
 }
 
 #[cfg(test)]
